@@ -531,7 +531,7 @@ func main() {
 	scratch := vf.Scratch("c32")
 	rng := vf.NewRNG(vf.Seed())
 	shs := shapes()
-	total := vf.N(2000, 24000)  // headers; each is offered on two paths (4 000 / 48 000 offers)
+	total := vf.N(2000, 40000)  // headers; each is offered on two paths (4 000 / 80 000 offers)
 	workers := runtime.NumCPU() // reopening a ledger is allocation heavy; more than ~6 workers only adds contention
 	if workers > 6 {
 		workers = 6
